@@ -168,7 +168,10 @@ func (e *Encoder) basePrelude() {
 	e.addPre("strlt", "(declare-fun strlt (Str Str) Bool)")
 	e.addPre("strempty", "(declare-const strempty Str)")
 	{
-		e.addPre("strax", "(assert (= (strlen strempty) 0))\n(assert (forall ((s Str)) (! (>= (strlen s) 0) :pattern ((strlen s)))))\n(assert (forall ((s Str)) (! (=> (= (strlen s) 0) (= s strempty)) :pattern ((strlen s)))))\n(assert (forall ((a Str) (b Str)) (! (= (strlen (strcat a b)) (+ (strlen a) (strlen b))) :pattern ((strcat a b)))))")
+		e.addPre("strax", "(assert (= (strlen strempty) 0))\n(assert (forall ((s Str)) (! (>= (strlen s) 0) :pattern ((strlen s)))))\n(assert (forall ((s Str)) (! (=> (= (strlen s) 0) (= s strempty)) :pattern ((strlen s)))))")
+		// separate entry: the closure of Str under concatenation has only infinite models, which makes
+		// satisfiability (cover) queries that do not concatenate anything undecidable for the solvers
+		e.addPre("strcat.ax", "(assert (forall ((a Str) (b Str)) (! (= (strlen (strcat a b)) (+ (strlen a) (strlen b))) :pattern ((strcat a b)))))")
 		e.addPre("tdiv", "(define-fun tdiv ((x Int) (y Int)) Int (ite (>= x 0) (ite (> y 0) (div x y) (- (div x (- y)))) (ite (> y 0) (- (div (- x) y)) (div (- x) (- y)))))\n(define-fun tmod ((x Int) (y Int)) Int (- x (* y (tdiv x y))))")
 	}
 	e.addPre("strlt.ax", "(assert (forall ((a Str)) (! (not (strlt a a)) :pattern ((strlt a a)))))\n"+
@@ -394,6 +397,34 @@ func (e *Encoder) strLitDecls(text string) []string {
 		for _, s := range lits {
 			out = append(out, fmt.Sprintf("(assert (strlt %s %s))", prev, e.strLits[s]))
 			prev = e.strLits[s]
+		}
+	}
+	return out
+}
+
+// strLitFacts: facts relating literals through declared string functions (emitted after the prelude).
+func (e *Encoder) strLitFacts(text string) []string {
+	var out []string
+	var used []string
+	for _, s := range e.strOrder {
+		if mentions(text, e.strLits[s]) {
+			used = append(used, s)
+		}
+	}
+	if mentions(text, "strsub") {
+		// sub-strings of literals that are themselves literals of the query
+		for _, a := range used {
+			for _, b := range used {
+				if len(b) >= len(a) {
+					continue
+				}
+				if strings.HasSuffix(a, b) {
+					out = append(out, fmt.Sprintf("(assert (= (strsub %s %d %d) %s))", e.strLits[a], len(a)-len(b), len(a), e.strLits[b]))
+				}
+				if strings.HasPrefix(a, b) {
+					out = append(out, fmt.Sprintf("(assert (= (strsub %s 0 %d) %s))", e.strLits[a], len(b), e.strLits[b]))
+				}
+			}
 		}
 	}
 	return out
